@@ -3,7 +3,7 @@ NEXT NoNext
 CONSTANTS
   LFull = 0
   LLong = 0
-  CL = 5
+  CL = 6
   Wide = FALSE
 INVARIANT WriteInvertsRead
 INVARIANT NoEmptyBareItem
